@@ -289,6 +289,15 @@ impl LangGen {
     }
 
     fn let_form(&mut self, ty: Ty, cx: &[Var], depth: usize) -> String {
+        if ty == Ty::List && self.rng.chance(1, 8) {
+            // a variadic predicate whose answer is decided by a pair other than the first, as a middle operand: a
+            // procedure implemented in Rust pops all of its arguments whatever the answer
+            self.tag("variadic-predicate-operand");
+            let p = *self.rng.pick(&["(char=? #\\a #\\a #\\b)", "(char<? #\\a #\\c #\\b #\\d)", "(string=? \"x\" \"x\" \"y\")", "(string<? \"a\" \"c\" \"b\")",
+                                     "(= 1 1 2 2)", "(< 1 3 2 4)", "(>= 3 3 4)", "(char-ci=? #\\a #\\A #\\b)", "(eq? 'a 'b)", "(equal? '(1) '(2))"]);
+            let a = self.expr(Ty::Int, cx, 0);
+            return format!("(list {} {} {})", a, p, self.rng.range(0, 9));
+        }
         if ty == Ty::Int && self.rng.chance(1, 7) {
             // let* binds one name after the other: an init sees the bindings to its left (of this let* or of an
             // enclosing form), never the ones at or to its right; a closure made by an init keeps the binding it saw
